@@ -66,6 +66,8 @@ def extQ? (kind : String) (a c : Bytes) : Option ExtQ :=
   | "timeparse" => some (.timeparse a c)
   | "atoierr" => some (.atoierr a)
   | "unescapeerr" => some (.unescapeerr a)
+  | "sprint" => some (.sprint a)
+  | "deepeq" => some (.deepeq a c)
   | _ => none
 
 def extQSexp : ExtQ → Sexp
@@ -76,6 +78,8 @@ def extQSexp : ExtQ → Sexp
   | .timeparse a c => .node "q" [.atom "timeparse", .bytes a, .bytes c]
   | .atoierr a => .node "q" [.atom "atoierr", .bytes a, .bytes []]
   | .unescapeerr a => .node "q" [.atom "unescapeerr", .bytes a, .bytes []]
+  | .sprint a => .node "q" [.atom "sprint", .bytes a, .bytes []]
+  | .deepeq a c => .node "q" [.atom "deepeq", .bytes a, .bytes c]
 
 /-- `(ext (a kind xA xB #code xText)…)` -/
 def ext? : Sexp → Option Ext
